@@ -173,6 +173,23 @@ func (fr *Frame) bigCall(st *State, fn *ssa.Function, args []Value) (Value, bool
 		}
 		v.fresh++
 		return set(F.Var(fmt.Sprintf("big.frombytes!%d", v.fresh), SInt))
+	case "SetString": // (z, ok) = parse of the string in the given base: the documented acceptance set and value are
+		// the uninterpreted big.parseok / big.parse of the characters and the base; on failure z is undefined
+		sl, ok := args[1].(*SliceV)
+		if !ok || sl.Obj == nil {
+			unsup("big.Int.SetString of %T", args[1])
+		}
+		arr, isArr := v.getPath(v.content(st, sl.Obj), sl.Path).(*ArrV)
+		if !isArr {
+			unsup("big.Int.SetString of a string without symbolic contents")
+		}
+		base := fr.asTerm(args[2])
+		okT := F.App("big.parseok", SBool, arr.Arr, sl.Off, sl.Len, base)
+		val := F.App("big.parse", SInt, arr.Arr, sl.Off, sl.Len, base)
+		v.fresh++
+		fr.store(st, args[0], F.Ite(okT, val, F.Var(fmt.Sprintf("big.SetString!undefined!%d", v.fresh), SInt)), nil)
+		used()
+		return &TupleV{[]Value{&IteV{C: okT, A: args[0], B: &PtrV{}}, okT}}, true
 	case "FillBytes": // buf receives the big-endian bytes of |x|, zero-extended; panics when |x| does not fit
 		sl, ok := args[1].(*SliceV)
 		if !ok || sl.Obj == nil || !sl.Len.IsConst() || !sl.Off.IsConst() || sl.Len.K.Int64() > 256 {
